@@ -252,6 +252,14 @@ class Preprocessor(Transformer):
                 f"len(data objects used for fitting)={self.n_data}"
             )
 
+        # Data lacking a fitted dimension would silently broadcast against the scaling parameters
+        for x, renamer in zip(X, self.renamer.transformers):
+            missing_dims = set(renamer.dim_mapping.keys()) - set(x.dims)
+            if missing_dims:
+                raise ValueError(
+                    f"Cannot transform data. Dimensions {missing_dims} are missing."
+                )
+
         X_t = X.copy()
         for transformer in self.get_transformers():
             X_t = transformer.transform(X_t)  # type: ignore
